@@ -244,6 +244,35 @@ def unit_impl_line(name, out, resolver, prefix_only):
             "syss": ",".join(syss) or "-", "status": status, "digest": dg, "events": joined}
 
 
+RETRY_UNITS = {"write2", "udp_send", "accept", "async_send", "async_io", "signal_event", "close"}
+
+
+def unit_monitor(name, case, impl):
+    """property verdict on the implementation's own unit trace (None = no violation seen)"""
+    plan = case.split("seq:", 1)[1].split(",") if "seq:" in case else []
+    only_intr = plan and all(a in ("o", "i") for a in plan)
+    realistic = all(a in ("o", "i", "ENOMEM") for a in plan)
+    if name in RETRY_UNITS and only_intr and (impl["rc"] == "EINTR" or impl["cb"] == "EINTR"):
+        return "an interrupted call surfaced as UV_EINTR from a retry loop"
+    if only_intr and impl["rc"].startswith("ABORT"):
+        return "abort() after nothing but interrupted calls"
+    if impl["rc"].startswith("E") and impl["rc"] != "EXIT0":
+        for k, what in (("dr", "active_reqs"), ("dh", "active_handles")):
+            if impl["fields"].get(k, "0") != "0":
+                return "the call failed with %s and left %s changed by %s" % (impl["rc"], what, impl["fields"][k])
+        if name in ("udp_send", "getaddrinfo", "fs_stat", "fs_rename", "accept") and \
+                (impl["fields"].get("dm", "0") != "0" or impl["fields"].get("df", "0") != "0"):
+            return "the call failed with %s and left memory/descriptors behind (dm=%s df=%s)" % (
+                impl["rc"], impl["fields"].get("dm"), impl["fields"].get("df"))
+    if realistic and impl["status"] in ("ASAN", "ASSERT") :
+        return "%s: %s" % (impl["status"], impl["digest"][:160])
+    if impl["rc"].startswith("ABORT") and impl["rc"].endswith(":unpermitted") and realistic:
+        return "abort() at a site the property does not permit: " + impl["rc"]
+    if " fdleak=" in impl["events"] and " fdleak=0" not in impl["events"] and impl["status"] == "EXIT0" and " loop_close=0" in impl["events"]:
+        return "descriptors left open after the loop was closed"
+    return None
+
+
 def unit_compare(impl, model_line, prefix_only):
     mm = dict(kv.split("=", 1) for kv in model_line.split() if "=" in kv)
     mrc = mm.get("rc", "?")
@@ -401,6 +430,14 @@ def monitor(scen, plan, kind, ref, out, resolver):
         bad = [v for v in errvals if v != "EINTR"]
         if bad and not any(p[0] in ("acct",) for p in probs):
             probs.append(("eintr_not_transparent", "an EINTR storm surfaced as %s" % ",".join(sorted(set(bad)))))
+        # UV_EINTR is an admissible report only where libuv deliberately does not restart the call
+        # (open(), file reads: uv__fs_work's retry_on_eintr); everywhere else the call sits in a
+        # do/while (errno == EINTR) loop and must be transparent
+        pm = re.match(r"at:[MW]\.([a-z0-9_]+)#", plan)
+        pname = pm.group(1) if pm else ""
+        surf = [(k, v) for k, v, _ in devs if v == "EINTR"] + [(k, v) for k, v in extra if v == "EINTR"]
+        if surf and ";" not in plan and not (pname == "open" or (pname in ("read", "pread", "readv") and surf[0][0].lstrip("cb.").startswith("fs_"))):
+            probs.append(("eintr_not_transparent", "EINTR on %s surfaced as %s=EINTR" % (pname, surf[0][0])))
     if (lost or extra) and not errvals and not probs:
         probs.append(("lost_event", "events differ from the fault-free run without any error being reported: "
                       "missing %s extra %s" % (lost[:4], extra[:4])))
@@ -530,10 +567,14 @@ def main():
             if diffs:
                 chk.cov["disagreements_checked"] += 1
                 nbad += 1
+                # does the implementation's own trace violate the property?
+                reason = unit_monitor(name, c, impl)
                 if nbad <= 4:
-                    chk.violation("unit correspondence %s: implementation and model disagree: %s" % (name, "; ".join(diffs[:3])),
+                    chk.violation("unit correspondence %s: implementation and model disagree: %s%s" %
+                                  (name, "; ".join(diffs[:3]), ("; " + reason) if reason else ""),
                                   {"kind": "correspondence", "obligation": "Model/Faults.v = " + name, "case": c,
-                                   "impl": o[:2000], "model_case": mc, "model": mo}, found_input=False)
+                                   "impl": o[:2000], "model_case": mc, "model": mo, "monitor": reason},
+                                  found_input=reason is not None)
         chk.corr("unit: modelled entry points under sequential oracles", len(cases))
     chk.sample({"unit_case": cases[3] if len(cases) > 3 else "", "impl": outs[3][:300] if len(outs) > 3 else "",
                 "model": mouts[3] if len(mouts) > 3 else ""})
@@ -590,6 +631,13 @@ def main():
     souts = run(["%s %s" % (s, pl) for s, pl, _, _, _ in storm])
     cases += ["%s %s" % (s, pl) for s, pl, _, _, _ in storm]
     outs += souts
+    if os.environ.get("C16_DUMP"):
+        with open(os.environ["C16_DUMP"], "w") as f:
+            for s_ in SCENARIOS:
+                if s_ in refs:
+                    f.write("REF %s %s\n" % (s_, json.dumps(refs[s_])))
+            for c_, o_ in zip(cases, outs):
+                f.write("%s => %s\n" % (c_, o_))
     stats = collections.Counter()
     byapi = collections.Counter()
     findings = collections.OrderedDict()
